@@ -43,6 +43,7 @@ type pobj struct {
 	coll int // collator id of a Set; limBase+m: the default order with maximum traversal depth m
 	dig  string
 	seen bool // observed at least once
+	nan  bool // holds keys that are not equal to themselves (NaN): never drawn by the ordinary ops, observed without key lookups
 }
 
 const limBase = 100
@@ -249,6 +250,9 @@ func (s *seqRunner[V]) add(kind okind, v any, coll int) {
 func (s *seqRunner[V]) ofKind(kinds ...okind) []int {
 	var out []int
 	for i, o := range s.pool {
+		if o.nan {
+			continue
+		}
 		for _, k := range kinds {
 			if o.kind == k {
 				out = append(out, i)
@@ -393,6 +397,9 @@ func (s *seqRunner[V]) record(d digester, name, opEnc, human string, f func() st
 	switch rr.oc {
 	case ocPanic:
 		retEnc = "RPanic"
+		if s.panicRet != "" {
+			retEnc = s.panicRet
+		}
 		s.outHist["panic"]++
 	case ocHang:
 		retEnc = "RHang"
@@ -1225,6 +1232,13 @@ func (a *assocRunner[V]) digest(o *pobj) string {
 			return "ODead"
 		}
 		for i, x := range arr {
+			if o.nan {
+				// a key that is not equal to itself cannot be read back: the key view must still list the same key
+				if encVal(any(keys[i])) != encVal(any(x.GetKey())) {
+					return "ODead"
+				}
+				continue
+			}
 			if any(keys[i]) != any(x.GetKey()) {
 				return "ODead"
 			}
